@@ -209,6 +209,9 @@ class Differ:
                 tag, attr = attr
                 if tag != left.tag or tag != right.tag:
                     continue
+            if attr in self.ignored_attrs:
+                # An ignored attribute can not tell nodes apart.
+                continue
             if attr in left.attrib or attr in right.attrib:
                 # One of the nodes have a unique attribute, we check only that.
                 # If only one node has it, it means they are not the same.
